@@ -254,9 +254,34 @@ def case_pair_scenarios(ctx):
                 ctx.count('case_pair_scenarios')
 
 
+def odd_name_lists(ctx):
+    """Exclusions against names that end in / hold a line feed, a space, a backslash: an exclusion removes the names it matches whole."""
+    from .c05 import ODD_TREE
+    import random
+    cases = [(['*'], ['abc']), (['*'], ['a?c']), (['*'], ['a']), (['*'], ['x.txt', 'ab']), (['**'], ['**/m.py']), (['**'], ['sub/*.py']), (['*', 'a*'], ['ab[c]']),
+             (['**'], ['sub']), (['*'], ['x']), (['*'], ['b?']), (['**'], ['**/n.p?', 'q?r']), (['sub/*', 'sub*'], ['sub/m.py']), (['*'], ['[a]']), (['**'], ['**/f'])]
+    fsets = [(), ('NODIR',), ('MARK',), ('NOUNIQUE',), ('DOTGLOB', 'NODIR'), ('IGNORECASE',)]
+    idx, todo = 0, []
+    for pats, excl in cases:
+        for fn in fsets:
+            for inline in (False, True):
+                idx += 1
+                if ctx.mine(idx):
+                    todo.append((pats, excl, fn, inline))
+    if not todo:
+        return
+    with T.Tree(ODD_TREE, 'c13o-') as tr:
+        for pats, excl, fn, inline in todo:
+            fn = ['EXTGLOB', 'GLOBSTAR'] + list(fn)
+            with ctx.case(timeout=20, label=('odd-names', tuple(pats), tuple(excl), tuple(fn), inline)):
+                check_list(ctx, tr, random.Random(idx), 0, 1, forced=(pats, pats, excl, fn, inline))
+                ctx.count('odd_name_lists')
+
+
 def run(ctx):
     quick = ctx.quick
     case_pair_scenarios(ctx)
+    odd_name_lists(ctx)
     k = 0
     limit = 150 if quick else 10 ** 9
     while k < limit and not ctx.out_of_time():
